@@ -77,6 +77,10 @@ def _rewrite(sl, v, d):
         return sl._variant(v[1], v[2])
     if k == 'call' and len(v) == 4 and isinstance(v[2], tuple) and d < 6:
         name, args = v[1], v[2]
+        if v[3] is None and len(args) == 1 and name.startswith(('std::', 'core::')) and name.rsplit('::', 1)[-1] in CTOR:
+            # an enum constructor applied as a function (`.map(Some)`)
+            last = name.rsplit('::', 1)[-1]
+            return ('agg', CTOR[last], last, (('0', args[0]),))
         if name in CALL_ONCE and len(args) == 2 and args[0][0] in ('closure', 'fnitem') and args[1][0] == 'tuple':
             r = apply_fn(sl, args[0], args[1][1])
             if r is not None:
@@ -336,3 +340,714 @@ def frame_of(sl, data, adt_suffix):
                 return bases[0], repl
             return None
     return None
+
+
+# ---- work-lists -----------------------------------------------------------------------------------------------------
+_WORKLIST_DOC = """A recursive traversal and the same traversal driven by an explicit stack run the same effects on the same paths.  The
+recursive spelling is read by following the recursion; the explicit one keeps its pending work in a local collection,
+whose content the value slicer does not follow.  This section states what such a collection guarantees, from facts only:
+
+  faithful     the collection is a local created empty, only ever touched through push / pop / peek / is_empty / len
+               (every borrow of it is followed to its use), its elements are only modified through `peek_mut` in fields
+               that are recorded (`Worklist.mutated`: a field only advanced as an iterator stays "the same listing")
+  drained      at a success site every element that was pushed has been popped again: after every push each path to the
+               site passes an edge on which the collection was observed empty (pop / peek returned None, is_empty)
+  pop effects  effects every popped element receives before the function can go on to a success site
+               => pushing X implies those effects on X at the site (`Effects2`, MUST)
+  invariant    every element's fields denote a path inside the tree of the layer directory / a listing of such a
+               directory: proven by induction over the pushes (`WorklistPaths`, used for confinement of MAY effects)
+"""
+import weakref
+from .lib.value import is_transparent, UNWRAPPING, canon
+from .lib.guards import Cond, _discr_info, always_through, conditions as _conditions
+from .lib.effects import Effects, Eff, eff_key, GROUP
+from .lib.paths import LayerPaths, strip as _pstrip
+
+WL_OWNERS = ('std::vec::Vec::<', 'core::slice::<impl [T]>::', 'std::slice::<impl [T]>::', 'alloc::slice::<impl [T]>::',
+             'std::collections::VecDeque::<', 'std::collections::vec_deque::VecDeque::<')
+WL_ROLES = {'push': 'push', 'push_back': 'push', 'push_front': 'push', 'pop': 'pop', 'pop_back': 'pop', 'pop_front': 'pop',
+            'last': 'peek', 'first': 'peek', 'front': 'peek', 'back': 'peek',
+            'last_mut': 'peek_mut', 'first_mut': 'peek_mut', 'front_mut': 'peek_mut', 'back_mut': 'peek_mut',
+            'is_empty': 'empty', 'len': 'len', 'new': 'create', 'with_capacity': 'create'}
+# calls returning a view of the same collection
+WL_VIEWS = ('std::ops::Deref::deref', 'std::ops::DerefMut::deref_mut', 'std::convert::AsRef::as_ref', 'std::convert::AsMut::as_mut',
+            'std::borrow::Borrow::borrow', 'std::borrow::BorrowMut::borrow_mut')
+WL_VIEW_METHODS = ('as_slice', 'as_mut_slice')
+ITER_TRAITS = ('std::iter::Iterator::', 'std::iter::DoubleEndedIterator::')
+_WL_CACHE = weakref.WeakKeyDictionary()
+
+
+def _cache(sl):
+    d = _WL_CACHE.get(sl)
+    if d is None:
+        d = _WL_CACHE[sl] = {}
+    return d
+
+
+def wl_role(call):
+    n = call.name or ''
+    if call.indirect or not n.startswith(WL_OWNERS):
+        return None
+    return WL_ROLES.get(n.rsplit('::', 1)[-1])
+
+
+def _is_view(call):
+    if call.indirect:
+        return False
+    if call.decl in WL_VIEWS:
+        return True
+    n = call.name or ''
+    return n.startswith(WL_OWNERS) and n.rsplit('::', 1)[-1] in WL_VIEW_METHODS
+
+
+def switch_edges(fn, sl):
+    """every SwitchInt edge of fn as a guards.Cond (guards.conditions only lists the edges dominating one block)"""
+    c = _cache(sl)
+    key = ('edges', fn.path)
+    if key in c:
+        return c[key]
+    out = []
+    for sb, blk in enumerate(fn.blocks):
+        t = blk['t']
+        if t['t'] != 'switch':
+            continue
+        by_target = {}
+        for v, tb in t['targets']:
+            by_target.setdefault(tb, []).append(v)
+        by_target.setdefault(t['else'], []).append('else')
+        listed = [v for v, _ in t['targets']]
+        di = _discr_info(fn, sb, t['o'])
+        val = sl.operand(fn, t['o'])
+        for tb, labels in by_target.items():
+            if fn.blocks[tb]['t']['t'] == 'unreachable' or tb not in fn.succs(sb):
+                continue
+            if di:
+                place, vmap, enum = di
+                names = set()
+                for lab in labels:
+                    if lab == 'else':
+                        names |= {n for v, n in vmap.items() if v not in listed}
+                    else:
+                        names.add(vmap.get(lab, str(lab)))
+                out.append(Cond(fn, sb, tb, 'variant', frozenset(names), val, sl.place(fn, place), enum))
+            elif t.get('oty') == 'bool':
+                if labels == ['else'] and listed == [0]:
+                    oc = True
+                elif labels == [0]:
+                    oc = False
+                elif labels == [1]:
+                    oc = True
+                elif labels == ['else'] and listed == [1]:
+                    oc = False
+                else:
+                    continue
+                v = val
+                while v[0] == 'un' and v[1] == 'Not':
+                    v, oc = v[2], not oc
+                cd = Cond(fn, sb, tb, 'bool', oc, v)
+                cd._slicer = sl
+                out.append(cd)
+    c[key] = out
+    return out
+
+
+def _reach(fn, start, skip_edges=(), stop=()):
+    """blocks reachable from start (inclusive) on normal edges, not using skip_edges, not continuing through stop"""
+    seen, work = set(), [start]
+    while work:
+        b = work.pop()
+        if b in seen:
+            continue
+        seen.add(b)
+        if b in stop:
+            continue
+        for s in fn.succs(b):
+            if (b, s) not in skip_edges:
+                work.append(s)
+    return seen
+
+
+def _single_def(fn, local):
+    return len(fn.whole_defs(local)) == 1 and not fn.partial_defs(local)
+
+
+def _iter_only(fn, local, seen=None):
+    """a `&mut` held in `local` is only ever reborrowed or handed to Iterator methods as the receiver"""
+    seen = seen if seen is not None else set()
+    if local in seen:
+        return True
+    seen.add(local)
+    if fn.partial_defs(local):
+        return False
+    for bi, kind, idx, how, pl in fn.uses_of(local):
+        if kind == 'drop':
+            continue
+        if any(p != '*' for p in pl[1:]):
+            return False
+        if kind == 'stmt':
+            st = fn.blocks[bi]['s'][idx]
+            if how not in ('ref', 'refmut', 'c', 'm', 'cfd') or len(st[1]) != 1 or st[1][0] == 0 or not _iter_only(fn, st[1][0], seen):
+                return False
+        elif kind == 'arg':
+            c = fn.call_at(bi)
+            if c is None or c.indirect or idx != 0 or not (c.decl or '').startswith(ITER_TRAITS):
+                return False
+        else:
+            return False
+    return True
+
+
+def _elem_mutations(fn, peek):
+    """{field: 'iter' | 'mut'} for the fields of the element that can change through the `&mut` handed out by the
+    peek_mut call ('' = the element as a whole); None when the reference goes somewhere this cannot follow"""
+    if not peek.dest or len(peek.dest) != 1 or peek.dest[0] == 0:
+        return None
+    mut, refs, work = {}, set(), []
+    for bi, kind, idx, how, pl in fn.uses_of(peek.dest[0]):
+        if kind == 'drop' or (kind == 'stmt' and how == 'discr'):
+            continue
+        projs = [p for p in pl[1:] if p != '*']
+        if kind == 'stmt' and how in ('c', 'm') and projs == ['@Some', '.0']:
+            st = fn.blocks[bi]['s'][idx]
+            if len(st[1]) != 1 or st[1][0] == 0:
+                return None
+            work.append(st[1][0])
+        elif kind == 'arg' and idx == 0 and not projs:
+            c = fn.call_at(bi)
+            if c is None or c.indirect or not (c.names() & UNWRAPPING) or not c.dest or len(c.dest) != 1 or c.dest[0] == 0:
+                return None
+            work.append(c.dest[0])
+        else:
+            return None
+    while work:
+        x = work.pop()
+        if x in refs:
+            continue
+        refs.add(x)
+        for dd in fn.partial_defs(x):
+            projs = [p for p in dd[4][1:] if p != '*']
+            if not projs or not projs[0].startswith('.'):
+                return None
+            mut[projs[0][1:]] = 'mut'
+        for bi, kind, idx, how, pl in fn.uses_of(x):
+            if kind == 'drop':
+                continue
+            if kind != 'stmt':
+                return None
+            st = fn.blocks[bi]['s'][idx]
+            projs = [p for p in pl[1:] if p != '*']
+            if not projs:
+                if how in ('ref', 'refmut', 'c', 'm', 'cfd') and len(st[1]) == 1 and st[1][0] != 0:
+                    work.append(st[1][0])
+                    continue
+                return None
+            if not projs[0].startswith('.'):
+                return None
+            f = projs[0][1:]
+            if how in ('ref', 'c', 'cfd', 'discr'):
+                continue
+            if how == 'refmut' and len(st[1]) == 1 and st[1][0] != 0 and _iter_only(fn, st[1][0]):
+                mut.setdefault(f, 'iter')
+            else:
+                mut[f] = 'mut'
+    return mut
+
+
+class Worklist:
+    """a faithful local collection of fn (see the section comment)"""
+
+    def __init__(self, fn, local, create, value):
+        self.fn = fn
+        self.local = local
+        self.create = create
+        self.value = value
+        self.site = (fn.path, create.bb)
+        self.calls = {'push': [], 'pop': [], 'peek': [], 'peek_mut': [], 'empty': [], 'len': []}
+        self.mutated = {}
+        self.elem_sites = {}      # site of a pop / peek call -> Call
+        self.empty_edges = set()  # (switch block, target): the collection was just observed empty
+        self._tmpl = {}
+
+    def frozen(self, field):
+        return field not in self.mutated and '' not in self.mutated
+
+    def still_listing(self, field):
+        return self.mutated.get(field) in (None, 'iter') and '' not in self.mutated
+
+    def is_elem(self, x, only=None):
+        """x = unwrap(<pop / peek of this collection>)"""
+        if isinstance(x, tuple) and len(x) == 2 and x[0] == 'unwrap' and isinstance(x[1], tuple) and len(x[1]) == 4 and x[1][0] == 'call':
+            return x[1][3] in self.elem_sites and (only is None or x[1][3] == only)
+        return False
+
+    def _scan(self, sl):
+        fn = self.fn
+        derived, work = set(), [self.local]
+        while work:
+            t = work.pop()
+            if t in derived:
+                continue
+            derived.add(t)
+            if not _single_def(fn, t):
+                return False
+            for bi, kind, idx, how, pl in fn.uses_of(t):
+                if kind == 'drop':
+                    continue
+                if any(p != '*' for p in pl[1:]):
+                    return False
+                if kind == 'stmt':
+                    st = fn.blocks[bi]['s'][idx]
+                    if how not in ('ref', 'refmut', 'c', 'm', 'cfd') or len(st[1]) != 1 or st[1][0] == 0:
+                        return False
+                    work.append(st[1][0])
+                elif kind == 'arg':
+                    c = fn.call_at(bi)
+                    if c is None or c.indirect or idx != 0:
+                        return False
+                    role = wl_role(c)
+                    if role in self.calls:
+                        if role == 'push' and len(c.args) != 2:
+                            return False
+                        self.calls[role].append(c)
+                    elif _is_view(c) and c.dest and len(c.dest) == 1 and c.dest[0] != 0:
+                        work.append(c.dest[0])
+                    else:
+                        return False
+                else:
+                    return False
+        for c in self.calls['peek_mut']:
+            m = _elem_mutations(fn, c)
+            if m is None:
+                return False
+            for f, how in m.items():
+                if self.mutated.get(f) != 'mut':
+                    self.mutated[f] = how
+        for role in ('pop', 'peek', 'peek_mut'):
+            for c in self.calls[role]:
+                self.elem_sites[(fn.path, c.bb)] = c
+        observers = dict(self.elem_sites)
+        observers.update({(fn.path, c.bb): c for c in self.calls['empty']})
+        push_bbs = {c.bb for c in self.calls['push']}
+        for cd in switch_edges(fn, sl):
+            v = cd.subject if cd.kind == 'variant' else cd.value
+            if not (isinstance(v, tuple) and len(v) == 4 and v[0] == 'call' and v[3] in observers):
+                continue
+            oc = observers[v[3]]
+            if v[3] in self.elem_sites:
+                if not (cd.kind == 'variant' and cd.outcome == frozenset(['None'])):
+                    continue
+            elif not (cd.kind == 'bool' and cd.outcome is True):
+                continue
+            # nothing is pushed between the observation and the branch on it
+            if oc.target is None or (_reach(fn, oc.target, stop=(cd.sw_bb,)) - {cd.sw_bb}) & push_bbs:
+                continue
+            self.empty_edges.add((cd.sw_bb, cd.target))
+        return True
+
+    def drained_at(self, bb):
+        """every element pushed has been popped when block bb is reached"""
+        if not self.empty_edges:
+            return False
+        for q in self.calls['push']:
+            if q.target is None or q.bb == bb or bb in _reach(self.fn, q.target, self.empty_edges):
+                return False
+        return True
+
+    def some_targets(self, sl, pop):
+        ts = [cd.target for cd in switch_edges(self.fn, sl)
+              if cd.kind == 'variant' and cd.outcome == frozenset(['Some']) and isinstance(cd.subject, tuple) and len(cd.subject) == 4
+              and cd.subject[3] == (self.fn.path, pop.bb)]
+        return ts or ([pop.target] if pop.target is not None else [])
+
+    def components(self, x):
+        """{field: value} of a pushed element value"""
+        if x[0] == 'tuple':
+            return {str(i): y for i, y in enumerate(x[1])}
+        if x[0] == 'agg' and x[2] is None and x[1]:
+            return dict(x[3])
+        return {'': x}
+
+
+def worklists(sl, fn):
+    c = _cache(sl)
+    key = ('wl', fn.path)
+    if key not in c:
+        out = []
+        for cc in fn.calls:
+            if wl_role(cc) != 'create' or not cc.dest or len(cc.dest) != 1 or cc.dest[0] == 0:
+                continue
+            v = sl.local(fn, cc.dest[0])
+            if v[0] != 'call' or len(v) != 4 or v[3] != (fn.path, cc.bb):
+                continue
+            wl = Worklist(fn, cc.dest[0], cc, v)
+            if wl._scan(sl) and wl.calls['push']:
+                out.append(wl)
+        c[key] = out
+    return c[key]
+
+
+def worklist_of_elem(prog, sl, x):
+    """the work-list that x = unwrap(pop / peek call) is an element of"""
+    if isinstance(x, tuple) and len(x) == 2 and x[0] == 'unwrap' and isinstance(x[1], tuple) and len(x[1]) == 4 and x[1][0] == 'call' \
+            and isinstance(x[1][3], tuple) and len(x[1][3]) == 2:
+        fn = prog.fns.get(x[1][3][0])
+        if fn is not None and wl_role_name(x[1][1]):
+            for wl in worklists(sl, fn):
+                if x[1][3] in wl.elem_sites:
+                    return wl
+    return None
+
+
+def wl_role_name(name):
+    return isinstance(name, str) and name.startswith(WL_OWNERS) and WL_ROLES.get(name.rsplit('::', 1)[-1]) in ('pop', 'peek', 'peek_mut')
+
+
+def _some(x):
+    return ('agg', 'std::option::Option', 'Some', (('0', x),))
+
+
+class Effects2(Effects):
+    """Effects whose MUST summaries also know what a drained work-list implies, and which are taken per case of the branch
+    that decides whether something is pushed (`if let Some(x) = open(dir)? { stack.push((dir, x)) }`: the None case has the
+    helper's None outcome, the Some case the effects every popped element receives)"""
+
+    def expand(self, fn, mode='must', site_bbs=None, mapping=None, chain=(), _stack=None):
+        out = Effects.expand(self, fn, mode, site_bbs, mapping, chain, _stack)
+        if mode != 'must' or site_bbs is not None or fn.path in (_stack or ()) or len(_stack or ()) > self.max_depth:
+            return out
+        wls = worklists(self.slicer, fn)
+        if not wls:
+            return out
+        by_cases = self._must_by_cases(fn, wls, mapping or {}, chain, (_stack or ()) + (fn.path,))
+        if by_cases is None:
+            return out
+        have = {eff_key(e) for e in by_cases}
+        return by_cases if all(eff_key(e) in have for e in out) else out
+
+    # -- per-element effects of a pop ---------------------------------------------------------------------------------
+    def _pop_effects(self, wl, pop, site_bb, mapping, chain, stack):
+        """effects (in entry terms, still naming the popped element) that happen for the element popped by `pop` on every
+        path that goes on to the success site"""
+        fn, sl = wl.fn, self.slicer
+        site = (fn.path, pop.bb)
+        starts = wl.some_targets(sl, pop)
+        if not starts or any(site_bb not in fn.reachable(t) for t in starts):
+            return []
+        from .lib.discard import result_fates, verdict
+        out = []
+        for c in fn.calls:
+            if c.bb == pop.bb or not all(always_through(fn, t, c.bb, [site_bb]) for t in starts):
+                continue
+            if (c.dty or '').startswith('std::result::Result<') and verdict(result_fates(self.prog, fn, c)) not in ('ok', 'panics'):
+                continue
+            effs = []
+            self._expand_call(fn, c, None, 'must', mapping, chain, stack, effs)
+            for e in effs:
+                if e.path is None or e.forall is not None:
+                    continue
+                fields = [x[2] for x in walk(e.path) if x[0] == 'field' and wl.is_elem(x[1], site)]
+                whole = sum(1 for x in walk(e.path) if wl.is_elem(x, site)) - len(fields)
+                if not (fields or whole) or (whole and wl.mutated) or not all(wl.frozen(f) for f in fields):
+                    continue
+                out.append(e)
+        return out
+
+    def _drain_effects(self, wl, push, site_bb, mapping, chain, stack):
+        """effects implied at the success site by `push` having run: the per-element effects common to every pop"""
+        sl = self.slicer
+        if not wl.calls['pop'] or not wl.drained_at(site_bb):
+            return []
+        x = norm(sl, self.subst(sl.operand(wl.fn, push.args[1]), mapping))
+        per_pop = []
+        for pop in wl.calls['pop']:
+            inst = []
+            for e in self._pop_effects(wl, pop, site_bb, mapping, chain, stack):
+                table = {(wl.fn.path, pop.bb): _some(x)}
+                ne = Eff(e.kind, replace_calls(sl, e.path, table), e.call, e.chain, True, None,
+                         tuple(replace_calls(sl, a, table) for a in e.args) if e.args is not None else None)
+                ne.mapping, ne.implied = e.mapping, e.implied
+                inst.append(ne)
+            per_pop.append(inst)
+        common = None
+        for inst in per_pop:
+            ks = {eff_key(e) for e in inst}
+            common = ks if common is None else common & ks
+        return [e for e in per_pop[0] if eff_key(e) in common]
+
+    # -- MUST effects per case ----------------------------------------------------------------------------------------
+    def _split_for(self, fn, wls, site_bb):
+        """the branch deciding a push (outside loops, passed by every path to the site), or None"""
+        sl = self.slicer
+        site_conds = {(c.sw_bb, c.target) for c in _conditions(fn, site_bb, sl)}
+        dom = fn.dominators()
+        best = None
+        for wl in wls:
+            if not wl.drained_at(site_bb):
+                continue
+            for q in wl.calls['push']:
+                if fn.in_loop(q.bb) or fn.dominates(q.bb, site_bb):
+                    continue
+                for cd in _conditions(fn, q.bb, sl):
+                    if (cd.sw_bb, cd.target) in site_conds or not fn.dominates(cd.sw_bb, site_bb) or fn.in_loop(cd.sw_bb):
+                        continue
+                    if best is None or len(dom.get(cd.sw_bb, ())) < len(dom.get(best, ())):
+                        best = cd.sw_bb
+        return best
+
+    def _case_calls(self, fn, site_bb, edge):
+        """[(Call, forall)] run on every path to the site that takes `edge` (a Cond), in program order"""
+        base = self.must_calls(fn, [site_bb])
+        if edge is None:
+            return base
+        have = {id(c) for c, _ in base}
+        extra = []
+        inside = fn.reachable(edge.target)
+        for c in fn.calls:
+            if id(c) in have or c.bb not in inside or c.bb == site_bb or not always_through(fn, edge.target, c.bb, [site_bb]):
+                continue
+            extra.append(c)
+        if not extra:
+            return base
+        rpo = {b: i for i, b in enumerate(fn._rpo())}
+        keyed = [((i, 0, 0), (c, fa)) for i, (c, fa) in enumerate(base)]
+        for c in extra:
+            after = [i for i, (b, _) in enumerate(base) if b.bb != c.bb and fn.dominates(b.bb, c.bb)]
+            keyed.append(((max(after) if after else -1, 1, rpo.get(c.bb, 0)), (c, None)))
+        keyed.sort(key=lambda t: t[0])
+        return [x for _, x in keyed]
+
+    def _site_value(self, g, gs, m):
+        sl = self.slicer
+        if gs.kind == 'ok':
+            return self.subst(sl._rvalue(g, gs.stmt, set(), 0, None), m)
+        if gs.kind == 'tail' and not self.prog.callee_fns(gs.call):
+            return self.subst(sl._call_value(g, gs.call, set(), 0), m)
+        return None
+
+    def _helper_in_case(self, fn, c, edge, mapping, chain, stack, out):
+        """MUST effects of the private helper call c whose result decides `edge`: only the helper's success sites that are
+        consistent with the edge count.  False when none is (the case cannot happen)"""
+        sl = self.slicer
+        g = self.prog.callee_fns(c)[0]
+        sid = (fn.path, c.bb)
+        subj = edge.subject if edge.kind == 'variant' else edge.value
+        m = self.call_mapping(fn, c, g, mapping)
+        feasible = []
+        for gs in self.sites(g):
+            rv = self._site_value(g, gs, m)
+            if rv is not None and decided(sl, edge, replace_calls(sl, subj, {sid: rv})) is False:
+                continue
+            feasible.append(gs)
+        if not feasible:
+            return False
+        per = [self.expand(g, 'must', [gs.bb], m, chain + (Link(c, mapping),), stack) for gs in feasible]
+        common = None
+        for effs in per:
+            ks = {eff_key(e) for e in effs}
+            common = ks if common is None else common & ks
+        seen = set()
+        for e in per[0]:
+            k = eff_key(e)
+            if k in common and (k not in seen or e.kind not in GROUP):
+                out.append(e)
+                seen.add(k)
+        return True
+
+    def _must_by_cases(self, fn, wls, mapping, chain, stack):
+        sl = self.slicer
+        cases = []
+        for st in self.sites(fn):
+            sb = self._split_for(fn, wls, st.bb)
+            edges = [cd for cd in switch_edges(fn, sl) if cd.sw_bb == sb and st.bb in fn.reachable(cd.target)] if sb is not None else []
+            for edge in (edges or [None]):
+                effs, ok = [], True
+                final_obs = [c.subject[3] for c in _conditions(fn, st.bb, sl) if c.kind == 'variant' and isinstance(c.subject, tuple)
+                             and len(c.subject) == 4 and any((c.sw_bb, c.target) in wl.empty_edges for wl in wls)]
+                pending = []     # drain effects waiting for the observation that found the collection empty
+                for c, forall in self._case_calls(fn, st.bb, edge):
+                    subj = (edge.subject if edge.kind == 'variant' else edge.value) if edge is not None else None
+                    gs = self.prog.callee_fns(c) if not c.indirect else []
+                    if subj is not None and forall is None and len(gs) == 1 and gs[0].kind != 'Closure' and gs[0].path not in stack \
+                            and mentions(subj, (fn.path, c.bb)) and len(stack) <= self.max_depth:
+                        if not self._helper_in_case(fn, c, edge, mapping, chain, stack, effs):
+                            ok = False
+                            break
+                    else:
+                        self._expand_call(fn, c, forall, 'must', mapping, chain, stack, effs)
+                    for wl in wls:
+                        if c in wl.calls['push'] and forall is None and not fn.in_loop(c.bb):
+                            pending.extend(self._drain_effects(wl, c, st.bb, mapping, chain, stack))
+                    if pending and (fn.path, c.bb) in final_obs:
+                        effs.extend(pending)
+                        pending = []
+                if not ok:
+                    continue
+                cases.append(effs + pending)
+        if not cases:
+            return None
+        common = None
+        for effs in cases:
+            ks = {eff_key(e) for e in effs}
+            common = ks if common is None else common & ks
+        out, seen = [], set()
+        for e in cases[0]:
+            k = eff_key(e)
+            if k in common and (k not in seen or e.kind not in GROUP):
+                out.append(e)
+                seen.add(k)
+        return out
+
+
+# ---- path classes of work-list elements ----------------------------------------------------------------------------
+TREE = ('SUB', ('DIR',), '**')      # the layer directory or anything below it
+
+
+def _in_tree(k):
+    return k is not None and k[0] in ('DIR', 'SUB', 'CHILD')
+
+
+class WorklistPaths(LayerPaths):
+    """LayerPaths that can also classify a path taken from (or listed from) an element of a work-list: by the inductive
+    invariant `every element's path fields are inside the layer directory's tree, its listing fields list such a
+    directory`, checked on every push with the invariant assumed for the elements the pushed value is derived from"""
+
+    def __init__(self, is_ld, is_ln, dir_values=(), E=None):
+        LayerPaths.__init__(self, is_ld, is_ln, dir_values)
+        self.E = E
+        self._roles = {}
+
+    def classify(self, v, depth=0):
+        if isinstance(v, tuple) and v and v[0] == 'wl_tree':
+            return TREE
+        k = LayerPaths.classify(self, v, depth)
+        if k is None and depth == 0 and self.E is not None and isinstance(v, tuple) and v:
+            # normal form: private helpers / constructors that only compute paths are transparent wherever they occur in
+            # the value (`LayerPaths::new(layers_dir, name).toml`), not only as its outermost call
+            prog, sl = self.E.prog, self.E.slicer
+            keep = (LayerPaths.sbom_path_fn, 'libcnb::layer::struct_api::LayerRef::<B, MAC, RAC>::path')
+            if any(x[0] == 'call' and x[1] in prog.fns and x[1] not in keep for x in walk(v)):
+                nv = norm(sl, sl.inline_deep(v, keep=keep))
+                if nv != v:
+                    k = LayerPaths.classify(self, nv, 1)
+        return k
+
+    def classify_effect(self, e):
+        k = self.classify(e.path)
+        if k is not None or e.path is None or self.E is None:
+            return k
+        v = self._resolve(e.path, e)
+        return self.classify(v) if v is not None else None
+
+    # -- internals ------------------------------------------------------------------------------------------------------
+    def _owner_mapping(self, e, fnpath):
+        if e.call is not None and e.call.fn.path == fnpath:
+            return e.mapping or {}
+        for l in reversed(e.chain):
+            if isinstance(l, Link) and l.call.fn.path == fnpath:
+                return l.mapping or {}
+        return None
+
+    def _elems(self, v):
+        prog, sl = self.E.prog, self.E.slicer
+        out = []
+        for x in walk(v):
+            if x[0] == 'unwrap':
+                wl = worklist_of_elem(prog, sl, x)
+                if wl is not None and wl not in out:
+                    out.append(wl)
+        return out
+
+    def _hyp(self, v, roles):
+        """v with the fields of work-list elements replaced by what the invariant says about them"""
+        prog, sl = self.E.prog, self.E.slicer
+
+        def placeholder(wl, field):
+            role = roles.get(wl.site, {}).get(field)
+            if role == 'path':
+                return ('wl_tree', wl.site)
+            if role == 'listing':
+                return ('call', 'std::fs::read_dir', (('wl_tree', wl.site),), None)
+            return None
+
+        def go(x):
+            if not isinstance(x, tuple) or not x:
+                return x
+            if isinstance(x[0], str) and x[0] in LEAF:
+                return x
+            if x[0] == 'field' and len(x) == 3 and isinstance(x[1], tuple):
+                wl = worklist_of_elem(prog, sl, x[1])
+                if wl is not None:
+                    return placeholder(wl, x[2]) or x
+            wl = worklist_of_elem(prog, sl, x)
+            if wl is not None:
+                return placeholder(wl, '') or x
+            out = tuple(go(y) if isinstance(y, tuple) else y for y in x)
+            return x if out == x else out
+        return go(v)
+
+    def _listed(self, v, depth=0):
+        """directories a listing value (ReadDir) lists, or None"""
+        sl = self.E.slicer
+        v = _pstrip(v)
+        if v[0] == 'phi':
+            out = []
+            for x in v[1]:
+                r = self._listed(x, depth + 1)
+                if r is None:
+                    return None
+                out.extend(r)
+            return out
+        if v[0] == 'call' and v[1] == 'std::fs::read_dir' and v[2]:
+            return [v[2][0]]
+        if v[0] == 'call' and v[1] in self.E.prog.fns and depth < 4:
+            iv = sl.inline_call(v)
+            if iv is not None and iv != v:
+                return self._listed(norm(sl, iv), depth + 1)
+        return None
+
+    def _satisfies(self, comp, role, roles):
+        sl = self.E.slicer
+        c = self._hyp(comp, roles)
+        if self._elems(c):
+            return False
+        if role == 'path':
+            return _in_tree(self.classify(c))
+        dirs = self._listed(norm(sl, sl.inline_deep(c)))
+        return bool(dirs) and all(_in_tree(self.classify(d)) for d in dirs)
+
+    def _roles_of(self, wl, m):
+        """{field: 'path' | 'listing'}: the invariant of wl's elements under parameter bindings m (see class comment)"""
+        sl = self.E.slicer
+        key = (wl.site, tuple(sorted((k, canon(v)) for k, v in m.items() if isinstance(k, tuple) and k[0] == wl.fn.path)))
+        if key in self._roles:
+            return self._roles[key]
+        pushed = [wl.components(norm(sl, self.E.subst(sl.operand(wl.fn, q.args[1]), m))) for q in wl.calls['push']]
+        roles = {}
+        if pushed and all(set(p) == set(pushed[0]) for p in pushed):
+            base = [p for p in pushed if not any(self._elems(v) for v in p.values())]
+            for f in (pushed[0] if base else ()):
+                for role in ('path', 'listing'):
+                    if (wl.frozen(f) if role == 'path' else wl.still_listing(f)) and all(self._satisfies(p[f], role, {}) for p in base):
+                        roles[f] = role
+                        break
+            changed = True
+            while changed and roles:
+                changed = False
+                for f in list(roles):
+                    if not all(self._satisfies(p[f], roles[f], {wl.site: roles}) for p in pushed):
+                        del roles[f]
+                        changed = True
+        self._roles[key] = roles
+        return roles
+
+    def _resolve(self, v, e):
+        roles = {}
+        for wl in self._elems(v):
+            m = self._owner_mapping(e, wl.fn.path)
+            if m is None:
+                return None
+            roles[wl.site] = self._roles_of(wl, m)
+        if not roles:
+            return None
+        r = self._hyp(v, roles)
+        return None if self._elems(r) else r
